@@ -825,6 +825,12 @@ def rot_programs(rng, flavour, n):
             return op
         # first retrievals (all succeed); copies only, so that no destination shares the inode that is going to rot
         firsts = rng.sample([("copy", "key", "sync"), ("copy", "hash", "sync"), ("copy", "key", pick_fl(rng, flavour)), ("copy", "hash", pick_fl(rng, flavour))], rng.randrange(1, 4))
+        hl_first = rng.random() < 0.5
+        if hl_first:
+            # a checked hard link first: the destination shares the inode that is going to rot, so after the rot the
+            # destination is replaced by a separate file with the same (rotten) bytes — model and directory agree again
+            firsts.append(("hard_link", "key", pick_fl(rng, flavour)))
+            if rng.random() < 0.5: firsts.append(("hard_link", "hash", "sync"))
         for i, (kind, by, fl) in enumerate(firsts):
             prog.append(extr(kind, by, f"first{i}", fl))
         prog.append({"op": "read", "fl": pick_fl(rng, flavour), "key": kx(k1)})
@@ -833,6 +839,9 @@ def rot_programs(rng, flavour, n):
         else:
             new = d2
         prog.append({"op": "damage", "kind": "rot", "loc": ref.loc_c(ref.content_rel(sri1)), "data": new.hex()})
+        for i, (kind, by, fl) in enumerate(firsts):
+            if kind == "hard_link":
+                prog.append({"op": "damage", "kind": "set", "loc": f"e:first{i}", "data": new.hex()})
         j = 0
         for kind in ("copy", "hard_link", "reflink"):
             for by in ("key", "hash"):
@@ -844,4 +853,38 @@ def rot_programs(rng, flavour, n):
         prog += [{"op": "read", "fl": fl, "key": kx(k1)} for fl in FLS[flavour]]
         prog += [{"op": "read_hash", "fl": fl, "sri": sri1} for fl in FLS[flavour]]
         prog += [{"op": "ropen", "fl": pick_fl(rng, flavour), "r": 1, "key": kx(k1)}, {"op": "rall", "r": 1}, {"op": "rcheck", "r": 1}]
+        yield prog
+
+
+def late_commit_programs(rng, flavour, n):
+    """C20 / C14: writers that are committed or dropped only after the cache was pulled from under them — cleared, or its
+    (every entry of its root removed, tmp/ included) — possibly with one more chunk written through the descriptor of the
+    unlinked temp file."""
+    for _ in range(n):
+        prog = []
+        if rng.random() < 0.6:
+            prog.append({"op": "write", "fl": pick_fl(rng, flavour), "key": kx("before"), "data": rand_bytes(rng, 9).hex()})
+        nw = rng.randrange(1, 4)
+        for w in range(1, nw + 1):
+            data = rand_bytes(rng, rng.choice([0, 1, 10, 300, 5000]))
+            op = {"op": "open", "fl": pick_fl(rng, flavour), "w": w, "algo": rng.choice(hashes.ALGOS)}
+            if rng.random() < 0.6: op["key"] = kx(rng.choice(["late", "before", "other"]))
+            sm = rng.choice(["none", "ok", "more"])
+            if sm == "ok": op["size"] = len(data)
+            elif sm == "more": op["size"] = len(data) + rng.choice([1, 7, 1000])
+            prog.append(op)
+            for c in chunkings(rng, data):
+                prog.append({"op": "wchunk", "w": w, "data": c.hex(), "mode": "write_all"})
+        prog.append({"op": "clear", "fl": pick_fl(rng, flavour)})
+        if rng.random() < 0.3:
+            # a write through the descriptor of the unlinked temp file still succeeds (Fs.exec: the fd-based steps)
+            w = rng.randrange(1, nw + 1)
+            prog.append({"op": "wchunk", "w": w, "data": rand_bytes(rng, 3).hex(), "mode": "write_all"})
+        order = list(range(1, nw + 1)); rng.shuffle(order)
+        for w in order:
+            prog.append({"op": rng.choice(["commit", "commit", "drop"]), "w": w})
+        for k in ("late", "before", "other"):
+            prog.append({"op": "metadata", "fl": pick_fl(rng, flavour), "key": kx(k)})
+            prog.append({"op": "read", "fl": pick_fl(rng, flavour), "key": kx(k)})
+        prog.append({"op": "list"})
         yield prog
